@@ -392,6 +392,17 @@ def run(ck):
                 elif ec:
                     sub = argp(ec[-1][7], 1)
                     if judge("reference-basis group: its own samples", None, sub, need_basis=False):
+                        # the group's energy gradient is ADDED to what the earlier groups contributed
+                        t0 = items[0].term if isinstance(items[0], VTens) else None
+                        at0 = t0.single_atom() if t0 is not None else None
+                        eg = ec[-1][6]
+                        if at0 is not None and isinstance(at0, T.App) and at0.op == "accum" and eg is not None and at0.args[3] == eg:
+                            ck.ok("C03.R4", inst + ":all-Z group's energy gradient accumulated [%s]" % _c(p), gsite)
+                        elif t0 is not None and eg is not None and (t0 == eg or (at0 is not None and isinstance(at0, T.App) and at0.op == "loop" and at0.args[3] == eg)):
+                            ck.violation("C03.R4", inst + ":all-Z group's energy gradient accumulated [%s]" % _c(p), gsite,
+                                         "the amplitude gradient after a reference-basis group is that group's energy gradient alone: the contributions of the groups before it are overwritten, not added to")
+                        else:
+                            ck.undecided("C03.R4", inst + ":all-Z group's energy gradient accumulated [%s]" % _c(p), gsite, "amplitude gradient %s not recognised" % (str(t0)[:160],))
                         at1 = items[1].term.single_atom() if items[1].term is not None else None
                         ck.check(items[1].term is not None and (items[1].term.is_zero() or (at1 is not None and at1.op == "accum" and at1.args[3].is_zero())), "C03.R4", inst + ":all-Z group adds no phase gradient", gsite,
                                  "the phase gradient of a reference-basis group is %r" % (items[1].term,))
